@@ -48,7 +48,12 @@ def unique_names(*, names, elements):
     names = list(reversed(names))
     elements = list(reversed(elements))
 
-    name_count = {k: v for k, v in Counter(names).items() if v > 1}
+    counter = Counter(names)
+    name_count = {k: v for k, v in counter.items() if v > 1}
+
+    # names already taken: the ones that are kept as they are (they occur
+    # once) and, as the loop advances, every generated name
+    used = {k for k, v in counter.items() if v == 1}
 
     named_elements = []
     for name, step in zip(names, elements):
@@ -56,6 +61,9 @@ def unique_names(*, names, elements):
         if count:
             name_count[name] = count - 1
             name = f"{name}_{count}"
+            while name in used:  # keep suffixing until the name is free
+                name = f"{name}_{count}"
+            used.add(name)
 
         named_elements.append((name, step))
 
